@@ -36,7 +36,8 @@ RULE = ('flat spaces from vv.gen (1..6 parameters: DOUBLE unit/neg/tiny/huge/pos
         'T2MI, SCALER, FMAP) x option tuple (scale, onehot, pad_oovs, '
         'max_discrete_indices 0/10/inf, float32/64, clipping, padding schedule), '
         'cycled systematically by case index; per case 8-10 feasible points incl. '
-        'every bound and the midpoint, then 7 classes of arbitrary finite arrays '
+        'every bound and the midpoint (BOOL values spelled as Python bools in ~40% of the '
+        'rows, oracle on the canonical \'True\'/\'False\'), then 7 classes of arbitrary finite arrays '
         '(unit, uniform[-2,3], exact 0/1, edges, +-1e6, dtype extremes, '
         'subnormals). METRIC cases: goal x flip x dtype x value class. A case is '
         'non-trivial when at least one non-singleton parameter was round-tripped '
@@ -57,6 +58,9 @@ ASSUMPTIONS = [
     'finite (in the converter dtype) arrays; integer index features only inside '
     'their documented bounds; index == len(feasible) must decode to "missing" (OOV)',
     'dtype actually carried by the feature array decides eps (jax may narrow float64)',
+    'a Python bool and the string \'True\'/\'False\' denote the same value of a boolean parameter '
+    '(SearchSpace.contains accepts both, ParameterValue.as_str normalises); decoding must '
+    'return the string spelling',
     'safety metrics are excluded from the label round trip (property text)',
     'metric values that overflow / underflow the label dtype are excluded',
 ]
@@ -122,7 +126,8 @@ REQUIRED_COUNTERS = (
      'label_roundtrips:MAXIMIZE:flip', 'label_roundtrips:MAXIMIZE:noflip',
      'label_sign_checked', 'padded_shapes_checked', 'scaler_unmap_roundtrips',
      'fmap_roundtrips', 't2mi_to_trials_checked', 'dtc_to_trials_checked',
-     'dtc_factory_used']
+     'dtc_factory_used', 'bool_values_spelled_as_python_bool',
+     'bool_python_spelling:DTC', 'bool_python_spelling:T2A']
     )
 # The per-option-tuple counters ('rt:<tuple>', 'arb:<tuple>') stay in the evidence,
 # but a starved shard on a loaded machine must not turn the whole run
@@ -379,8 +384,18 @@ def gen_case(rng, i, tier):
   # small spaces for the jax-backed subjects: fewer distinct shapes to compile
   desc = gen_desc(rng, tier, max_params=3 if subject in ('FMAP', 'T2MI', 'PADDED') else 6)
   pts = gen_points(rng, desc)
-  return {'subject': subject, 'opts': o, 'desc': desc, 'points': pts,
+  case = {'subject': subject, 'opts': o, 'desc': desc, 'points': pts,
           'aseed': rng.getrandbits(32), 'index': i}
+  # boolean parameters: `points` keeps the canonical spelling 'True'/'False' (what
+  # the oracles compare against); in the rows listed in `pybool` the trial handed
+  # to the converter spells every BOOL value as a Python bool, which the search
+  # space accepts as the same feasible point. The all-upper-values row (BOOL =
+  # 'True') is always among them.
+  if any(p['kind'] == 'BOOL' for p in desc):
+    rows = {r for r in range(len(pts)) if rng.random() < 0.4}
+    rows.add(len(pts) - 2)
+    case['pybool'] = sorted(rows)
+  return case
 
 
 ARRAY_CLASSES = ['unit', 'uniform', 'binary', 'edges', 'big', 'extreme', 'subnormal']
@@ -736,9 +751,30 @@ def make_problem(desc, metrics=None):
   return vz.ProblemStatement(search_space=space, metric_information=mi)
 
 
-def make_trials(points):
+BOOL_SPELLING = {'True': True, 'False': False}
+
+
+def make_trials(points, case=None, ctx=None):
+  """Trials for `points`; rows in case['pybool'] spell BOOL values as Python bools."""
   from vizier import pyvizier as vz
-  return [vz.Trial(parameters=dict(pt)) for pt in points]
+  rows = set(case.get('pybool', ())) if case else set()
+  bools = [p['name'] for p in case['desc'] if p['kind'] == 'BOOL'] if rows else []
+  out = []
+  for r, pt in enumerate(points):
+    prm = dict(pt)
+    if r in rows:
+      for nm in bools:
+        prm[nm] = BOOL_SPELLING[prm[nm]]
+        if ctx is not None:
+          ctx.count('bool_values_spelled_as_python_bool')
+          ctx.count('bool_python_spelling:' + case['subject'])
+    out.append(vz.Trial(parameters=prm))
+  return out
+
+
+def canon(v):
+  """Canonical spelling of a categorical value (Python bool -> 'True'/'False')."""
+  return ('True' if v else 'False') if isinstance(v, bool) else v
 
 
 def _sched(o):
@@ -781,7 +817,7 @@ def run_inputs_case(ctx, case):
   stage = 'build'
   try:
     problem = make_problem(desc)
-    trials = make_trials(pts)
+    trials = make_trials(pts, case, ctx)
     if subject == 'DTC':
       pconvs = [core.DefaultModelInputConverter(
           pc, scale=bool(o['scale']), onehot_embed=bool(o['onehot']),
@@ -1086,7 +1122,7 @@ def run_scaler_case(ctx, case):
     with np.errstate(all='ignore'):
       scaler = converters.ProblemAndTrialsScaler(problem)
     stage = 'map'
-    trials = make_trials(pts)
+    trials = make_trials(pts, case, ctx)
     with np.errstate(all='ignore'):
       mapped = scaler.map(trials)
     emb = scaler.problem_statement.search_space
@@ -1100,7 +1136,7 @@ def run_scaler_case(ctx, case):
         return False
       if p['kind'] in ('CATEGORICAL', 'BOOL'):
         ctx.count('scaler_categorical_unchanged_checked')
-        if got != vals:
+        if [canon(g) for g in got] != vals:
           R.v('scaler-categorical-changed', f"{p['name']}: {vals} -> {got}", {'param': p})
           return False
         unrep[p['name']] = [False] * len(vals)
@@ -1150,7 +1186,7 @@ def run_scaler_case(ctx, case):
     for p in desc:
       if p['kind'] in ('CATEGORICAL', 'BOOL'):
         got = [raw(t.parameters[p['name']]) for t in back]
-        if got != [pt[p['name']] for pt in pts]:
+        if [canon(g) for g in got] != [pt[p['name']] for pt in pts]:
           R.v('scaler-categorical-changed', f"{p['name']} changed by unmap", {'param': p})
           return nontrivial
         continue
@@ -1214,7 +1250,7 @@ def run_fmap_case(ctx, case):
         max_discrete_indices=MDI[o['mdi']], dtype=dt)
     fm = feature_mapper.ContinuousCategoricalFeatureMapper(conv)
     with np.errstate(all='ignore'):
-      arr = conv.to_features(make_trials(pts))
+      arr = conv.to_features(make_trials(pts, case, ctx))
       stage = 'map'
       mapped = fm.map(arr)
     cont = np.asarray(mapped.continuous)
